@@ -73,6 +73,9 @@ static int vf_fs_create(const uint8_t *path)
 int vf_fs_slot(const char *path) { return vf_fs_lookup((const uint8_t*)path); }
 /* harness helper: forget all descriptors (process end) and thaw the images for the next process, which runs without crash points */
 void vf_fs_new_process(void) { for (int d = 0; d < VF_FS_NFD; d++) vf_fd_open[d] = 0; vf_fs_crashed = 0; vf_fs_crash_disarmed = 1; }
+/* harness helpers: length of the file behind a descriptor; move a descriptor's position (to model positions left by earlier calls) */
+uint32_t vf_fs_filelen(uint32_t fd) { return vf_fs_len[vf_fd_file[fd - 3]]; }
+void vf_fs_set_offset(uint32_t fd, uint32_t off) { __CPROVER_assert(fd >= 3 && fd < 3 + VF_FS_NFD && vf_fd_open[fd - 3] && off <= vf_fs_len[vf_fd_file[fd - 3]], "file model: position inside the file"); vf_fd_off[fd - 3] = off; }
 uint32_t *x___errno_location(void) { return &vf_errno; }
 uint8_t *x_strerror(uint32_t e) { static uint8_t msg[] = "error"; return msg; }
 uint32_t x_access(uint8_t *path, uint32_t mode) { if (vf_fs_lookup(path) >= 0) return 0; vf_errno = 2; return (uint32_t)-1; }
